@@ -207,10 +207,8 @@ def filter_formula(it, node, env, var):
         fn = it.eval(node.func, env)
         if isinstance(fn, VBuiltin) and fn.name == "isinstance" and len(node.args) == 2 and isinstance(node.args[0], ast.Name) and node.args[0].id == var:
             T = it.eval(node.args[1], env)
-            r = it.stubs.isinstance_(it, VStr("x"), T) if hasattr(it.stubs, "isinstance_") else None
-            if r is None:
-                from . import stubs_lib
-                r = stubs_lib.isinstance_(it, VStr("x"), T)
+            from . import stubs_lib
+            r = stubs_lib.isinstance_(it, VStr("x"), T)  # the element is a text key: decided by its kind alone
             if isinstance(r, bool):
                 return lambda k: z3.BoolVal(r)
             raise OutOfSubset("isinstance filter with a symbolic outcome")
@@ -333,10 +331,6 @@ def _apply(it, o, op, sel):
         o.f["val"] = lambda k: z3.If(sel(k), G(k), val(k))
     else:
         raise OutOfSubset(f"effect {op}")
-
-
-def _root_names(st, effects_exprs):
-    return effects_exprs
 
 
 def foreach(it, st, env, src):
